@@ -93,10 +93,23 @@ def _prepare_cache(use_cache=True):
     """
     cache = {}
     if use_cache:
+        def _cacheable(kind, data):
+            # A `Markup` attribute value compares and hashes like the plain
+            # string of the same text but is written differently (it is not
+            # escaped again), so a start tag holding one must neither leave
+            # an entry behind nor be served somebody else's
+            if kind is START or kind is EMPTY:
+                for _, value in data[1]:
+                    if isinstance(value, Markup):
+                        return False
+            return True
         def _emit(kind, input, output):
-            cache[kind, input] = output
+            if _cacheable(kind, input):
+                cache[kind, input] = output
             return output
-        _get = cache.get
+        def _get(key):
+            if _cacheable(*key):
+                return cache.get(key)
     else:
         def _emit(kind, input, output):
             return output
